@@ -118,6 +118,14 @@ Definition seq_step (l : list Z) (o : op) : list Z * outcome out :=
   | OpAsSlice => (l, Ok (OSlice false l))
   end.
 
+(* the permitted range of the index argument: [0,n) for Get/Set/Delete, [0,n] for Add *)
+Definition index_ok (n : Z) (o : op) : bool :=
+  match o with
+  | OpGet i | OpSet i _ | OpDelete i => in_idx i n
+  | OpAdd i _ => (0 <=? i) && (i <=? n)
+  | _ => true
+  end.
+
 (* histories carry the capacity oracle; the specification ignores it *)
 Fixpoint seq_run (l : list Z) (h : list (op * Z)) : list (outcome out) :=
   match h with
